@@ -11,6 +11,9 @@
 //!   b, b      - the same question twice (stale verdict / first-answer caches)
 //!   b, a      - the honest question after a rejected neighbour (negative caches)
 //!
+//! After the pairs a seeded random walk over the cluster (3x / 30x its size, one step in four
+//! repeating the previous question) asks longer histories.
+//!
 //! The known answers are the monitor's own expectations, which its main pass has already compared
 //! with the reference implementation.
 
@@ -105,4 +108,50 @@ pub fn sandwich_pairs<T: PartialEq + Debug + Clone>(
             ctx.count("history_questions", 4);
         }
     }
+    walk(ctx, prop, cell, scope, cluster_id, ctxd, qs);
+}
+
+/// A seeded random walk over the cluster (longer histories than a pair: every answer still has
+/// to be the question's own). One step in four repeats the previous question. Length: 3 x the
+/// cluster size in the quick tier, 30 x in the thorough tier.
+fn walk<T: PartialEq + Debug + Clone>(
+    ctx: &mut Ctx,
+    prop: &str,
+    cell: &str,
+    scope: &str,
+    cluster_id: &[u8],
+    ctxd: &dyn Fn() -> Value,
+    qs: &[Q<'_, T>],
+) {
+    if qs.len() < 2 {
+        return;
+    }
+    use rand_core::RngCore;
+    let mut h: u64 = 0xcbf2_9ce4_8422_2325;
+    for b in cluster_id.iter().chain(scope.as_bytes()) {
+        h = (h ^ *b as u64).wrapping_mul(0x1000_0000_01b3);
+    }
+    let mut rng = ctx.rng_l(h, "history-walk");
+    let steps = qs.len() * ctx.tier.pick(3, 30);
+    let mut trail: Vec<usize> = Vec::new();
+    let mut prev = 0usize;
+    for step in 0..steps {
+        let i = if step > 0 && rng.next_u32() % 4 == 0 { prev } else { (rng.next_u64() % qs.len() as u64) as usize };
+        prev = i;
+        trail.push(i);
+        let a = &qs[i];
+        let entry = format!("history walk {scope}: step {step}: {}", a.name);
+        let Some(got) = ctx.guard(&entry, || ctxd(), || (a.ask)()) else { continue };
+        if got != a.expect {
+            let last: Vec<&str> = trail.iter().rev().take(5).rev().map(|j| qs[*j].name.as_str()).collect();
+            ctx.violation(
+                &format!("{prop}/history-dependent/{scope}/walk/{}", a.name),
+                json!({"what":"in a random walk over the cluster a question was answered differently from its own answer",
+                       "question":a.name,"answer":format!("{:?}", got),"answer_on_its_own":format!("{:?}", a.expect),
+                       "preceding_questions":last,"step":step,"cluster":ctxd()}),
+            );
+        }
+        ctx.count("history_walk_steps", 1);
+    }
+    ctx.hit(cell, &[scope.as_bytes(), cluster_id, b"walk", &(steps as u64).to_le_bytes()]);
 }
